@@ -371,6 +371,9 @@ Definition lbtc_create_spending (want : bytes) (txid : string) (outs : list lout
              difference (>= 2^63) makes confidential.RangeProof fail further down *)
           if negb (snd addr) then RErr else            (* address.FromConfidential *)
           if two63 <=? out_value then RErr else        (* confidential.RangeProof: value above INT64_MAX *)
+          (* an unblinded input and a zero output value make the final value blinding factor the
+             zero scalar, which the commitment / range proof code rejects *)
+          if (out_value =? 0) && negb (lo_conf o) then RErr else
           ROk (mk_ltxm 2 [mk_in txid vout (u32 csvseq) []] [LReceiver (fst addr) out_value; LFee fee] 0, true)
       end
   end.
